@@ -167,3 +167,28 @@ Section P.
     apply (dec_dval_exact v Hvr Hwf).
     pose proof (ddepth_le_len v) as Hd. rewrite app_length. lia.
   Qed.
+
+  (* ---------- refutations ---------- *)
+  (* Write accepts a list longer than listValueMaxSize; NewValue refuses what Write wrote *)
+  Example value_unbounded_refuted :
+    let v := DList (repeat DVoid 4097) in
+    new_value parse c (enc_dval v) = RErr (flat_map enc_dval (repeat DVoid 4097)).
+  Proof. vm_compute. reflexivity. Qed.
+
+  (* valueReader without the length prefix: a dynamic value inside opaque data is not copied as it is *)
+  Example sig_read_value_refuted : forall c', value_reader_no_len c' = true ->
+    let v := VDyn (TS SI32) (VNum 4 5) in
+    has_ty v (TS SValue) = true /\
+    exists d, sig_read parse c' 1 (TS SValue) (spec_enc v) = ROk (d, []) /\ d <> spec_enc v.
+  Proof.
+    intros c' Hc'. split; [reflexivity|].
+    cbn [sig_read sig_body spec_enc].
+    rewrite read_str_enc by (apply N.leb_le; reflexivity). cbn [bind].
+    rewrite string_of_bytes_of_string, (parse_print (TS SI32) eq_refl), Hc'.
+    eexists. split; [vm_compute; reflexivity|]. vm_compute. discriminate.
+  Qed.
+End P.
+
+Print Assumptions value_roundtrip.
+Print Assumptions value_unbounded_refuted.
+Print Assumptions sig_read_value_refuted.
